@@ -160,7 +160,7 @@ func msg32(r *mon.Rand) []byte {
 }
 
 func flipBit(b []byte, r *mon.Rand) []byte {
-	c := append([]byte{}, b...)
+	c := exact(b)
 	if len(c) > 0 {
 		i := r.Intn(len(c) * 8)
 		c[i/8] ^= 1 << uint(i%8)
@@ -236,4 +236,12 @@ func scramble(b []byte) {
 	for i := range b {
 		b[i] ^= 0xa5
 	}
+}
+
+// exact returns a copy of b without spare capacity: a parser that reslices past the end of its input (which Go allows up
+// to the capacity) panics on such a copy instead of reading unrelated bytes unnoticed.
+func exact(b []byte) []byte {
+	out := make([]byte, len(b))
+	copy(out, b)
+	return out
 }
